@@ -413,6 +413,7 @@ class Interp:
                  local_domains: Optional[Dict[str, frozenset]] = None,
                  split_vars: Optional[List[str]] = None,
                  maxp: Optional[int] = None,
+                 integer_counters: bool = False,
                  taint: bool = False, sinks: Optional[list] = None,
                  param_taints: Optional[Dict[str, object]] = None,
                  init_taint: Optional[Dict[tuple, object]] = None):
@@ -432,6 +433,7 @@ class Interp:
         self.axioms = list(axioms or [])
         self.nonempty_loops = set(nonempty_loops or ())
         self.split_vars = list(split_vars or [])
+        self.integer_counters = integer_counters
         self.taint_mode = taint
         self.sinks = sinks if sinks is not None else []
         self.param_taints = param_taints or {}
@@ -660,7 +662,22 @@ class Interp:
             return (bt, "#0", frozenset("<>"))
         return None
 
+    @staticmethod
+    def _links(e: ast.Compare):
+        out, left = [], e.left
+        for op, c in zip(e.ops, e.comparators):
+            out.append(ast.copy_location(ast.Compare(left=left, ops=[op], comparators=[c]), e))
+            left = c
+        return out
+
     def eval_test(self, e: ast.AST, p: Part) -> Optional[bool]:
+        if isinstance(e, ast.Compare) and len(e.ops) > 1:
+            rs = [self.eval_test(l, p) for l in self._links(e)]
+            if any(r is False for r in rs):
+                return False
+            if all(r is True for r in rs):
+                return True
+            return None
         v = self.eval(e, p, record=False)
         if isinstance(v, Const):
             try:
@@ -702,6 +719,13 @@ class Interp:
 
     def assume(self, e: ast.AST, truth: bool, p: Part) -> bool:
         """Refine p by assuming test e has the given truth value. False = infeasible."""
+        if isinstance(e, ast.Compare) and len(e.ops) > 1:
+            ev0 = self.eval_test(e, p)
+            if ev0 is not None:
+                return ev0 == truth
+            if truth:
+                return all(self.assume(l, True, p) for l in self._links(e))
+            return True
         ev = self.eval_test(e, p)
         if ev is not None:
             return ev == truth
@@ -1205,6 +1229,11 @@ class Interp:
 
     # ----------------------------------------------------------- statements
     def assign(self, target: ast.AST, val, p: Part, value_expr: Optional[ast.AST] = None):
+        if val is TOP and value_expr is not None:
+            sg = self._diff_sign(value_expr, p)
+            if sg in ("+", "-"):
+                val = Sgn(sg)
+        inc_facts = self._increment_facts(target, value_expr, p) if value_expr is not None else []
         if isinstance(target, ast.Name):
             vt = self.term(value_expr, p) if value_expr is not None else None
             name = target.id
@@ -1254,6 +1283,25 @@ class Interp:
                 p.pa.kill(lambda t, bt=bt: (bt + "[") in t)
         elif isinstance(target, ast.Starred):
             self.assign(target.value, TOP, p)
+        for tt, other, rel in inc_facts:
+            p.pa.add(tt, other, rel)
+
+    def _increment_facts(self, target, value_expr, p: Part):
+        """x = x + 1 (integer counter, assumption A-16): a strict bound x < t becomes x <= t"""
+        if not (self.integer_counters and isinstance(value_expr, ast.BinOp) and isinstance(value_expr.op, ast.Add)
+                and isinstance(value_expr.right, ast.Constant) and value_expr.right.value == 1
+                and ast.unparse(value_expr.left) == ast.unparse(target)):
+            return []
+        tt = self.term(value_expr.left, p)
+        if not tt or tt.startswith("#"):
+            return []
+        out = []
+        for o in p.pa.terms():
+            if o != tt and not _mentions(o, tt) and tt not in o:
+                r = p.pa.get(tt, o)
+                if r == frozenset("<"):
+                    out.append((tt, o, frozenset("<=")))
+        return out
 
     def _axioms(self, p: Part):
         for a, b, r in self.axioms:
